@@ -3,7 +3,7 @@
   crash mode): the files always represent the initial content plus every acknowledged commit plus,
   entirely or not at all, the commit in flight; the next open succeeds and shows exactly that.
 -/
-import Nervus.Proofs.CrashOpen
+import Nervus.Proofs.CrashClose
 namespace Nervus.Crash
 
 /-- files as a crash (or a dropped handle) leaves them -/
@@ -67,44 +67,82 @@ theorem freshTx_of {T : List Tx} {seen : List Nat} {tx : Tx} (hnd : (allNodes T)
     exact h2 a hb (hsub a ha)
   nozero := h3
 
-/-! ### commits through one handle -/
+/-! ### operations through one handle -/
 
-theorem runCommits_inv {cfg : Cfg} (hsync : cfg.syncSlot = true) :
-    ∀ (txs : List Tx) (T : List Tx) (fs : FS) (m : Mem) (cs : List CTx) (c : Nat) (seen : List Nat),
-      InvOpen T fs m cs c → (txs ≠ [] → TailPre cfg fs m) → (∀ x ∈ allNodes T, x ∈ seen) → FreshAll seen txs →
-      ∃ cs' c', InvOpen (T ++ txs) (runCommits cfg fs m txs).1 (runCommits cfg fs m txs).2 cs' c' ∧
-        (txs ≠ [] → validLen (runCommits cfg fs m txs).1.wf = (runCommits cfg fs m txs).1.wf.length) ∧
-        (∀ x ∈ allNodes (T ++ txs), x ∈ seen ++ txs.flatMap (·.nodes)) := by
-  intro txs
-  induction txs with
+/-- no compaction of the list has to split a leaf of the property tree -/
+def OpsCond (cfg : Cfg) : FS → Mem → List HOp → Prop
+  | _, _, [] => True
+  | fs, m, .commit tx :: rest =>
+    OpsCond cfg (run (commitA cfg m fs.pv fs.wf tx) .none fs m).fs (run (commitA cfg m fs.pv fs.wf tx) .none fs m).mem rest
+  | fs, m, .compact :: rest =>
+    NoSplit cfg m fs.pv ∧
+    OpsCond cfg (run (compactA cfg m fs.pv fs.wf) .none fs m).fs (run (compactA cfg m fs.pv fs.wf) .none fs m).mem rest
+
+instance decOpsCond (cfg : Cfg) : ∀ (fs : FS) (m : Mem) (ops : List HOp), Decidable (OpsCond cfg fs m ops)
+  | _, _, [] => inferInstanceAs (Decidable True)
+  | fs, m, .commit tx :: rest =>
+    decOpsCond cfg (run (commitA cfg m fs.pv fs.wf tx) .none fs m).fs (run (commitA cfg m fs.pv fs.wf tx) .none fs m).mem rest
+  | fs, m, .compact :: rest =>
+    have := decOpsCond cfg (run (compactA cfg m fs.pv fs.wf) .none fs m).fs (run (compactA cfg m fs.pv fs.wf) .none fs m).mem rest
+    inferInstanceAs (Decidable (NoSplit cfg m fs.pv ∧ _))
+
+theorem commitsOf_compact (rest : List HOp) : commitsOf (.compact :: rest) = commitsOf rest := rfl
+theorem commitsOf_commit (tx : Tx) (rest : List HOp) : commitsOf (.commit tx :: rest) = tx :: commitsOf rest := rfl
+
+theorem runOps_inv {cfg : Cfg} (hsync : cfg.syncSlot = true) :
+    ∀ (ops : List HOp) (T : List Tx) (fs : FS) (m : Mem) (cs : List CTx) (c : Nat) (seen : List Nat),
+      InvOpen T fs m cs c → TailPre cfg fs m → (∀ x ∈ allNodes T, x ∈ seen) → FreshAll seen (commitsOf ops) →
+      OpsCond cfg fs m ops →
+      ∃ cs' c', InvOpen (T ++ commitsOf ops) (runOps cfg fs m ops).1 (runOps cfg fs m ops).2 cs' c' ∧
+        TailPre cfg (runOps cfg fs m ops).1 (runOps cfg fs m ops).2 ∧
+        (∀ x ∈ allNodes (T ++ commitsOf ops), x ∈ seen ++ (commitsOf ops).flatMap (·.nodes)) := by
+  intro ops
+  induction ops with
   | nil =>
-    intro T fs m cs c seen h _ hsub _
-    exact ⟨cs, c, by simpa [runCommits] using h, by simp, by simpa using hsub⟩
-  | cons tx rest ih =>
-    intro T fs m cs c seen h ht hsub hfr
-    obtain ⟨f1, f2, f3, f4⟩ := hfr
-    have hf : FreshTx T tx := freshTx_of h.log.nodup hsub f1 f2 f3
-    obtain ⟨cs1, c1, h1, hclean1⟩ := commit_post hsync h (ht (by simp)) tx hf
-    obtain ⟨r1, r2, _⟩ := run_none (commitA cfg m fs.pv fs.wf tx) fs m
-    have hsub1 : ∀ x ∈ allNodes (T ++ [tx]), x ∈ seen ++ tx.nodes := by
-      intro x hx
-      rw [allNodes_snoc] at hx
-      rcases List.mem_append.mp hx with h' | h'
-      · exact List.mem_append_left _ (hsub x h')
-      · exact List.mem_append_right _ h'
-    obtain ⟨cs', c', h', hcl', hsub'⟩ := ih (T ++ [tx]) _ _ cs1 c1 (seen ++ tx.nodes) h1 (fun _ => Or.inl hclean1) hsub1 f4
-    refine ⟨cs', c', ?_, ?_, ?_⟩
-    · simp only [runCommits, r1, r2]
-      simpa using h'
-    · intro _
-      simp only [runCommits, r1, r2]
-      by_cases hr : rest = []
-      · subst hr
-        simpa [runCommits] using hclean1
-      · exact hcl' hr
-    · intro x hx
-      have := hsub' x (by simpa using hx)
-      simpa using this
+    intro T fs m cs c seen h ht hsub _ _
+    exact ⟨cs, c, by simpa [runOps, commitsOf] using h, by simpa [runOps] using ht, by simpa [commitsOf] using hsub⟩
+  | cons op rest ih =>
+    intro T fs m cs c seen h ht hsub hfr hcond
+    cases op with
+    | commit tx =>
+      rw [commitsOf_commit] at hfr ⊢
+      obtain ⟨f1, f2, f3, f4⟩ := hfr
+      have hf : FreshTx T tx := freshTx_of h.log.nodup hsub f1 f2 f3
+      obtain ⟨cs1, c1, h1, hclean1⟩ := commit_post hsync h ht tx hf
+      obtain ⟨r1, r2, _⟩ := run_none (commitA cfg m fs.pv fs.wf tx) fs m
+      have hsub1 : ∀ x ∈ allNodes (T ++ [tx]), x ∈ seen ++ tx.nodes := by
+        intro x hx
+        rw [allNodes_snoc] at hx
+        rcases List.mem_append.mp hx with h' | h'
+        · exact List.mem_append_left _ (hsub x h')
+        · exact List.mem_append_right _ h'
+      have hcond' : OpsCond cfg (fs.steps (ioSteps (commitA cfg m fs.pv fs.wf tx)))
+          ((memUpds (commitA cfg m fs.pv fs.wf tx)).foldl applyUpd m) rest := by
+        have : OpsCond cfg (run (commitA cfg m fs.pv fs.wf tx) .none fs m).fs (run (commitA cfg m fs.pv fs.wf tx) .none fs m).mem rest := hcond
+        rwa [r1, r2] at this
+      obtain ⟨cs', c', h', ht', hsub'⟩ := ih (T ++ [tx]) _ _ cs1 c1 (seen ++ tx.nodes) h1 (Or.inl hclean1) hsub1 f4 hcond'
+      refine ⟨cs', c', ?_, ?_, ?_⟩
+      · simp only [runOps, r1, r2]
+        simpa using h'
+      · simp only [runOps, r1, r2]
+        exact ht'
+      · intro x hx
+        have := hsub' x (by simpa using hx)
+        simpa using this
+    | compact =>
+      rw [commitsOf_compact] at hfr ⊢
+      obtain ⟨hns, hcond0⟩ := hcond
+      obtain ⟨cs1, c1, h1, ht1⟩ := compact_post h ht hns
+      obtain ⟨r1, r2, _⟩ := run_none (compactA cfg m fs.pv fs.wf) fs m
+      have hcond' : OpsCond cfg (fs.steps (ioSteps (compactA cfg m fs.pv fs.wf)))
+          ((memUpds (compactA cfg m fs.pv fs.wf)).foldl applyUpd m) rest := by
+        rwa [r1, r2] at hcond0
+      obtain ⟨cs', c', h', ht', hsub'⟩ := ih T _ _ cs1 c1 seen h1 ht1 hsub hfr hcond'
+      refine ⟨cs', c', ?_, ?_, hsub'⟩
+      · simp only [runOps, r1, r2]
+        exact h'
+      · simp only [runOps, r1, r2]
+        exact ht'
 
 /-! ### one incarnation -/
 
@@ -112,16 +150,42 @@ theorem runCommits_inv {cfg : Cfg} (hsync : cfg.syncSlot = true) :
 def Round.txs (r : Round) : List Tx :=
   match r.death with
   | .inOpen _ => []
-  | .idle => r.commits
-  | .inCommit tx _ => r.commits ++ [tx]
+  | .inCommit tx _ => commitsOf r.ops ++ [tx]
+  | _ => commitsOf r.ops
 
-/-- the log has no torn tail when the first commit of the incarnation appends to it (or appends
-    cut it off: C17's repair) -/
-def TailCond (cfg : Cfg) (fs : FS) (r : Round) : Prop :=
-  cfg.tailTolerant = true ∨ validLen fs.wf = fs.wf.length ∨ r.txs = []
+/-- the log has no torn tail when the incarnation starts, or appends cut it off (C17's repair) -/
+def TailCond (cfg : Cfg) (fs : FS) : Prop :=
+  cfg.tailTolerant = true ∨ validLen fs.wf = fs.wf.length
 
-instance (cfg : Cfg) (fs : FS) (r : Round) : Decidable (TailCond cfg fs r) :=
-  inferInstanceAs (Decidable (cfg.tailTolerant = true ∨ validLen fs.wf = fs.wf.length ∨ r.txs = []))
+instance (cfg : Cfg) (fs : FS) : Decidable (TailCond cfg fs) :=
+  inferInstanceAs (Decidable (cfg.tailTolerant = true ∨ validLen fs.wf = fs.wf.length))
+
+/-- the condition on a death inside a compaction: no leaf split, and the crash image tears no
+    leaf write of the live property tree (that is the known finding `C01-live-tree-in-place`) -/
+def deathCond (cfg : Cfg) (s : FS × Mem) (mode : CrashMode) : Death → Prop
+  | .inCompact k =>
+    NoSplit cfg s.2 s.1.pv ∧
+    mode.tearsLive s.2.proot (run (compactA cfg s.2 s.1.pv s.1.wf) (.crashAt k) s.1 s.2).fs.pj = false
+  | _ => True
+
+instance (cfg : Cfg) (s : FS × Mem) (mode : CrashMode) : ∀ d : Death, Decidable (deathCond cfg s mode d)
+  | .inCompact _ => inferInstanceAs (Decidable (_ ∧ _))
+  | .inOpen _ => inferInstanceAs (Decidable True)
+  | .inCommit _ _ => inferInstanceAs (Decidable True)
+  | .inClose _ => inferInstanceAs (Decidable True)
+  | .idle => inferInstanceAs (Decidable True)
+
+/-- the compaction conditions of one incarnation that starts on the files `fs` -/
+def Round.cond (cfg : Cfg) (fs : FS) (r : Round) : Prop :=
+  match r.death with
+  | .inOpen _ => True
+  | d =>
+    OpsCond cfg (run (openA cfg fs.pv fs.wf) .none fs {}).fs (run (openA cfg fs.pv fs.wf) .none fs {}).mem r.ops ∧
+    deathCond cfg (runOps cfg (run (openA cfg fs.pv fs.wf) .none fs {}).fs (run (openA cfg fs.pv fs.wf) .none fs {}).mem r.ops) r.mode d
+
+instance (cfg : Cfg) (fs : FS) (r : Round) : Decidable (r.cond cfg fs) := by
+  unfold Round.cond
+  cases r.death <;> simp only <;> infer_instance
 
 /-- what an incarnation may do to the content -/
 def StepT (T : List Tx) (o : Spec.RoundObs) (T' : List Tx) : Prop :=
@@ -136,24 +200,20 @@ theorem freshAll_append : ∀ (a b : List Tx) (seen : List Nat), FreshAll seen (
     exact ⟨⟨h1, h2, h3, i1⟩, by simpa [List.append_assoc] using i2⟩
 
 theorem tailPre_after_open {cfg : Cfg} {fs fsO : FS} {mO : Mem} (hw : fsO.wf = fs.wf) (htc : mO.tailChecked = false)
-    (h : cfg.tailTolerant = true ∨ validLen fs.wf = fs.wf.length) : TailPre cfg fsO mO := by
+    (h : TailCond cfg fs) : TailPre cfg fsO mO := by
   rcases h with h | h
   · right; simp [h, htc]
   · left; rw [hw]; exact h
 
 theorem round_safe {cfg : Cfg} (hsync : cfg.syncSlot = true) (T : List Tx) (fs : FS) (seen : List Nat) (r : Round)
-    (hc : Closed T fs) (hsub : ∀ x ∈ allNodes T, x ∈ seen) (htail : TailCond cfg fs r) (hfr : FreshAll seen r.txs) :
+    (hc : Closed T fs) (hsub : ∀ x ∈ allNodes T, x ∈ seen) (htail : TailCond cfg fs) (hfr : FreshAll seen r.txs)
+    (hcond : r.cond cfg fs) :
     ∃ T', StepT T r.obs T' ∧ Closed T' (r.after cfg fs) ∧
       (∀ x ∈ allNodes T', x ∈ seen ++ r.txs.flatMap (·.nodes)) := by
   obtain ⟨hfail, saO, hwO, csO, cO, hInvO, htcO⟩ := open_safe (cfg := cfg) hsync hc.flat.pj hc.flat.quiet hc.rep
   obtain ⟨o1, o2, o3⟩ := run_none (openA cfg fs.pv fs.wf) fs {}
-  have htpO : r.txs ≠ [] → TailPre cfg (fs.steps (ioSteps (openA cfg fs.pv fs.wf)))
-      ((memUpds (openA cfg fs.pv fs.wf)).foldl applyUpd {}) := by
-    intro hne
-    rcases htail with h | h | h
-    · exact tailPre_after_open hwO htcO (Or.inl h)
-    · exact tailPre_after_open hwO htcO (Or.inr h)
-    · exact absurd h hne
+  have htpO : TailPre cfg (fs.steps (ioSteps (openA cfg fs.pv fs.wf)))
+      ((memUpds (openA cfg fs.pv fs.wf)).foldl applyUpd {}) := tailPre_after_open hwO htcO htail
   cases hd : r.death with
   | inOpen k =>
     have hafter : r.after cfg fs = (fs.steps ((ioSteps (openA cfg fs.pv fs.wf)).take k)).crash r.mode := by
@@ -165,35 +225,36 @@ theorem round_safe {cfg : Cfg} (hsync : cfg.syncSlot = true) (T : List Tx) (fs :
     intro x hx
     exact List.mem_append_left _ (hsub x hx)
   | idle =>
-    have htxs : r.txs = r.commits := by simp [Round.txs, hd]
-    rw [htxs] at hfr htpO
-    obtain ⟨cs', c', hInv', _, hsub'⟩ := runCommits_inv hsync r.commits T _ _ csO cO seen hInvO htpO hsub hfr
-    have hafter : r.after cfg fs = (runCommits cfg (fs.steps (ioSteps (openA cfg fs.pv fs.wf)))
-        ((memUpds (openA cfg fs.pv fs.wf)).foldl applyUpd {}) r.commits).1.crash r.mode := by
+    have htxs : r.txs = commitsOf r.ops := by simp [Round.txs, hd]
+    rw [htxs] at hfr
+    have hcond' : OpsCond cfg (fs.steps (ioSteps (openA cfg fs.pv fs.wf)))
+        ((memUpds (openA cfg fs.pv fs.wf)).foldl applyUpd {}) r.ops := by
+      have := hcond
+      simp only [Round.cond, hd, o1, o2] at this
+      exact this.1
+    obtain ⟨cs', c', hInv', _, hsub'⟩ := runOps_inv hsync r.ops T _ _ csO cO seen hInvO htpO hsub hfr hcond'
+    have hafter : r.after cfg fs = (runOps cfg (fs.steps (ioSteps (openA cfg fs.pv fs.wf)))
+        ((memUpds (openA cfg fs.pv fs.wf)).foldl applyUpd {}) r.ops).1.crash r.mode := by
       simp [Round.after, hd, o1, o2]
-    have hsafe := safeFS_of_rep hInv'.pj hInv'.quiet ⟨cs', c', hInv'.com, hInv'.log, hInv'.pager⟩
+    have hsafe := safeFS_of_stable hInv'.pj hInv'.wal hInv'.log hInv'.pager hInv'.store
     obtain ⟨T', hT', hcl⟩ := closed_of_safe hsafe r.mode
     simp only [List.mem_singleton] at hT'
     subst hT'
-    exact ⟨T ++ r.commits, Or.inl (by simp [Round.obs, hd]), by rw [hafter]; exact hcl, by rw [htxs]; exact hsub'⟩
+    exact ⟨T ++ commitsOf r.ops, Or.inl (by simp [Round.obs, hd]), by rw [hafter]; exact hcl, by rw [htxs]; exact hsub'⟩
   | inCommit tx k =>
-    have htxs : r.txs = r.commits ++ [tx] := by simp [Round.txs, hd]
+    have htxs : r.txs = commitsOf r.ops ++ [tx] := by simp [Round.txs, hd]
     rw [htxs] at hfr
-    obtain ⟨hfr1, hfr2⟩ := freshAll_append r.commits [tx] seen hfr
-    have htp1 : r.commits ≠ [] → TailPre cfg (fs.steps (ioSteps (openA cfg fs.pv fs.wf)))
-        ((memUpds (openA cfg fs.pv fs.wf)).foldl applyUpd {}) := fun _ => htpO (by rw [htxs]; simp)
-    obtain ⟨cs', c', hInv', hcl', hsub'⟩ := runCommits_inv hsync r.commits T _ _ csO cO seen hInvO htp1 hsub hfr1
-    generalize hS : runCommits cfg (fs.steps (ioSteps (openA cfg fs.pv fs.wf)))
-      ((memUpds (openA cfg fs.pv fs.wf)).foldl applyUpd {}) r.commits = s at hInv' hcl' hsub'
-    have htp2 : TailPre cfg s.1 s.2 := by
-      by_cases hr : r.commits = []
-      · have hs : s = (fs.steps (ioSteps (openA cfg fs.pv fs.wf)), (memUpds (openA cfg fs.pv fs.wf)).foldl applyUpd {}) := by
-          rw [← hS, hr]; rfl
-        rw [hs]
-        exact htpO (by rw [htxs]; simp)
-      · exact Or.inl (hcl' hr)
+    obtain ⟨hfr1, hfr2⟩ := freshAll_append (commitsOf r.ops) [tx] seen hfr
+    have hcond' : OpsCond cfg (fs.steps (ioSteps (openA cfg fs.pv fs.wf)))
+        ((memUpds (openA cfg fs.pv fs.wf)).foldl applyUpd {}) r.ops := by
+      have := hcond
+      simp only [Round.cond, hd, o1, o2] at this
+      exact this.1
+    obtain ⟨cs', c', hInv', htp2, hsub'⟩ := runOps_inv hsync r.ops T _ _ csO cO seen hInvO htpO hsub hfr1 hcond'
+    generalize hS : runOps cfg (fs.steps (ioSteps (openA cfg fs.pv fs.wf)))
+      ((memUpds (openA cfg fs.pv fs.wf)).foldl applyUpd {}) r.ops = s at hInv' htp2 hsub'
     obtain ⟨g1, g2, g3, _⟩ := hfr2
-    have hf : FreshTx (T ++ r.commits) tx := freshTx_of hInv'.log.nodup hsub' g1 g2 g3
+    have hf : FreshTx (T ++ commitsOf r.ops) tx := freshTx_of hInv'.log.nodup hsub' g1 g2 g3
     obtain ⟨sa, _⟩ := commit_safe hsync hInv' htp2 tx hf
     have hafter : r.after cfg fs = (s.1.steps ((ioSteps (commitA cfg s.2 s.1.pv s.1.wf tx)).take k)).crash r.mode := by
       simp [Round.after, hd, o1, o2, hS, run_crash_fs]
@@ -221,26 +282,70 @@ theorem round_safe {cfg : Cfg} (hsync : cfg.syncSlot = true) (T : List Tx) (fs :
           · exact Or.inl h'
           · exact Or.inr (Or.inl h')
         · exact Or.inr (Or.inr (by simpa using h))
+  | inCompact k =>
+    have htxs : r.txs = commitsOf r.ops := by simp [Round.txs, hd]
+    rw [htxs] at hfr
+    have hcond2 := hcond
+    simp only [Round.cond, hd, o1, o2] at hcond2
+    obtain ⟨hcond', hdc⟩ := hcond2
+    obtain ⟨cs', c', hInv', htp2, hsub'⟩ := runOps_inv hsync r.ops T _ _ csO cO seen hInvO htpO hsub hfr hcond'
+    generalize hS : runOps cfg (fs.steps (ioSteps (openA cfg fs.pv fs.wf)))
+      ((memUpds (openA cfg fs.pv fs.wf)).foldl applyUpd {}) r.ops = s at hInv' htp2 hsub' hdc
+    obtain ⟨hns, htear⟩ := hdc
+    have sa := compact_safe hInv' htp2 hns
+    have hafter : r.after cfg fs = (s.1.steps ((ioSteps (compactA cfg s.2 s.1.pv s.1.wf)).take k)).crash r.mode := by
+      simp [Round.after, hd, o1, o2, hS, run_crash_fs]
+    rw [run_crash_fs] at htear
+    obtain ⟨T', hT', hr⟩ := sa k r.mode htear
+    simp only [List.mem_singleton] at hT'
+    subst hT'
+    exact ⟨T ++ commitsOf r.ops, Or.inl (by simp [Round.obs, hd]),
+      by rw [hafter]; exact ⟨crash_flat _ _, hr⟩, by rw [htxs]; exact hsub'⟩
+  | inClose k =>
+    have htxs : r.txs = commitsOf r.ops := by simp [Round.txs, hd]
+    rw [htxs] at hfr
+    have hcond' : OpsCond cfg (fs.steps (ioSteps (openA cfg fs.pv fs.wf)))
+        ((memUpds (openA cfg fs.pv fs.wf)).foldl applyUpd {}) r.ops := by
+      have := hcond
+      simp only [Round.cond, hd, o1, o2] at this
+      exact this.1
+    obtain ⟨cs', c', hInv', _, hsub'⟩ := runOps_inv hsync r.ops T _ _ csO cO seen hInvO htpO hsub hfr hcond'
+    generalize hS : runOps cfg (fs.steps (ioSteps (openA cfg fs.pv fs.wf)))
+      ((memUpds (openA cfg fs.pv fs.wf)).foldl applyUpd {}) r.ops = s at hInv' hsub'
+    have sa := close_safe (cfg := cfg) hInv'
+    have hafter : r.after cfg fs = (s.1.steps ((ioSteps (closeA cfg s.2 s.1.pv s.1.wf)).take k)).crash r.mode := by
+      simp [Round.after, hd, o1, o2, hS, run_crash_fs]
+    obtain ⟨T', hT', hcl⟩ := closed_of_safe (sa k) r.mode
+    simp only [List.mem_singleton] at hT'
+    subst hT'
+    exact ⟨T ++ commitsOf r.ops, Or.inl (by simp [Round.obs, hd]), by rw [hafter]; exact hcl, by rw [htxs]; exact hsub'⟩
 
 /-! ### all incarnations -/
 
 /-- the preconditions of a history, decided round by round on the files the model computes:
-    fresh non-zero external ids, and no append behind a torn log tail -/
+    fresh non-zero external ids, no append behind a torn log tail, and — for compactions — no leaf
+    split and no torn write of a live leaf in the crash image -/
 def HistOK (cfg : Cfg) : FS → List Nat → List Round → Prop
   | _, _, [] => True
   | fs, seen, r :: rest =>
-    TailCond cfg fs r ∧ FreshAll seen r.txs ∧ HistOK cfg (r.after cfg fs) (seen ++ r.txs.flatMap (·.nodes)) rest
+    TailCond cfg fs ∧ FreshAll seen r.txs ∧ r.cond cfg fs ∧
+      HistOK cfg (r.after cfg fs) (seen ++ r.txs.flatMap (·.nodes)) rest
 
-/-- only the freshness half of `HistOK` (what every caller of the API guarantees) -/
+/-- the freshness part of `HistOK` (what every caller of the API guarantees) -/
 def FreshHist : List Nat → List Round → Prop
   | _, [] => True
   | seen, r :: rest => FreshAll seen r.txs ∧ FreshHist (seen ++ r.txs.flatMap (·.nodes)) rest
+
+/-- the compaction part of `HistOK` -/
+def CondHist (cfg : Cfg) : FS → List Round → Prop
+  | _, [] => True
+  | fs, r :: rest => r.cond cfg fs ∧ CondHist cfg (r.after cfg fs) rest
 
 instance decHistOK (cfg : Cfg) : ∀ (fs : FS) (seen : List Nat) (rounds : List Round), Decidable (HistOK cfg fs seen rounds)
   | _, _, [] => inferInstanceAs (Decidable True)
   | fs, seen, r :: rest =>
     have := decHistOK cfg (r.after cfg fs) (seen ++ r.txs.flatMap (·.nodes)) rest
-    inferInstanceAs (Decidable (TailCond cfg fs r ∧ FreshAll seen r.txs ∧
+    inferInstanceAs (Decidable (TailCond cfg fs ∧ FreshAll seen r.txs ∧ r.cond cfg fs ∧
       HistOK cfg (r.after cfg fs) (seen ++ r.txs.flatMap (·.nodes)) rest))
 
 theorem rounds_safe {cfg : Cfg} (hsync : cfg.syncSlot = true) :
@@ -252,9 +357,9 @@ theorem rounds_safe {cfg : Cfg} (hsync : cfg.syncSlot = true) :
   | nil => intro T fs seen hc _ _; exact ⟨T, Spec.Admissible.done T, hc⟩
   | cons r rest ih =>
     intro T fs seen hc hsub hok
-    obtain ⟨h1, h2, h3⟩ := hok
-    obtain ⟨T1, hstep, hc1, hsub1⟩ := round_safe hsync T fs seen r hc hsub h1 h2
-    obtain ⟨T', hadm, hc'⟩ := ih T1 (r.after cfg fs) _ hc1 hsub1 h3
+    obtain ⟨h1, h2, h3, h4⟩ := hok
+    obtain ⟨T1, hstep, hc1, hsub1⟩ := round_safe hsync T fs seen r hc hsub h1 h2 h3
+    obtain ⟨T', hadm, hc'⟩ := ih T1 (r.after cfg fs) _ hc1 hsub1 h4
     refine ⟨T', ?_, hc'⟩
     simp only [List.map_cons]
     rcases hstep with rfl | ⟨tx, hi, rfl⟩
@@ -266,6 +371,26 @@ theorem rounds_safe {cfg : Cfg} (hsync : cfg.syncSlot = true) :
         simp only at hi
         subst hi
         exact Spec.Admissible.survived hadm
+
+/-- once appends cut a torn tail off (C17's repair in the tree), freshness and the compaction
+    conditions are all a history needs -/
+theorem histOK_of_fresh {cfg : Cfg} (htol : cfg.tailTolerant = true) :
+    ∀ (rounds : List Round) (fs : FS) (seen : List Nat), FreshHist seen rounds → CondHist cfg fs rounds →
+      HistOK cfg fs seen rounds
+  | [], _, _, _, _ => trivial
+  | r :: rest, fs, seen, h, hc => ⟨Or.inl htol, h.1, hc.1, histOK_of_fresh htol rest _ _ h.2 hc.2⟩
+
+instance decFreshHist : ∀ (seen : List Nat) (rounds : List Round), Decidable (FreshHist seen rounds)
+  | _, [] => inferInstanceAs (Decidable True)
+  | seen, r :: rest =>
+    have := decFreshHist (seen ++ r.txs.flatMap (·.nodes)) rest
+    inferInstanceAs (Decidable (FreshAll seen r.txs ∧ FreshHist (seen ++ r.txs.flatMap (·.nodes)) rest))
+
+instance decCondHist (cfg : Cfg) : ∀ (fs : FS) (rounds : List Round), Decidable (CondHist cfg fs rounds)
+  | _, [] => inferInstanceAs (Decidable True)
+  | fs, r :: rest =>
+    have := decCondHist cfg (r.after cfg fs) rest
+    inferInstanceAs (Decidable (r.cond cfg fs ∧ CondHist cfg (r.after cfg fs) rest))
 
 /-! ### acknowledged commits are inside every admissible list -/
 
@@ -304,16 +429,51 @@ theorem spec_run_eq (T : List Tx) : Spec.run T = ⟨allNodes T, allEdges T, allP
   | nil => rfl
   | cons tx T ih => simp [Spec.run, ih, allNodes, allEdges, allProps]
 
+theorem filterMap_id_map_some (xs : List Nat) : (xs.map some).filterMap id = xs := by
+  induction xs with
+  | nil => rfl
+  | cons x xs ih => simp [ih]
+
 theorem content_of_inv {T : List Tx} {fs : FS} {m : Mem} {cs : List CTx} {c : Nat} (h : InvOpen T fs m cs c) :
     Spec.Content.same (content m fs.pv) (Spec.run T) := by
-  rw [spec_run_eq]
+  rw [spec_run_eq, h.pv]
   refine ⟨h.mexts, ?_, ?_⟩
   · intro e
-    simp only [content, h.msegs, List.flatMap_nil, List.nil_append, h.mruns]
-    exact h.log.edges e
+    have : m.segs.flatMap (·.2) = (scan cs).segs.flatMap (segEdges fs.pd) := by
+      rw [h.msegs, List.flatMap_map]
+    simp only [content, this, h.mruns]
+    exact h.store.edges e
   · intro q
-    simp only [content, h.mroot, if_true, List.append_nil, h.mruns]
-    exact h.log.props q
+    obtain ⟨cov, hc1, hc2, hc3⟩ := h.store.props
+    by_cases hr : (scan cs).proot = 0
+    · simp only [content, h.mroot, hr, if_true, List.append_nil, h.mruns]
+      constructor
+      · exact h.store.runProps q
+      · intro hq
+        rcases hc1 q hq with h' | h'
+        · exact h'
+        · rw [hc2 hr] at h'; simp at h'
+    · obtain ⟨tr, hf, hto⟩ := hc3 hr
+      obtain ⟨xs, pid, hl, hsrt, hall, hcov⟩ := hto.shape
+      have hfind : fs.pd.trees.find? (fun t => t.key == (scan cs).proot) = some tr := hf
+      have hent : treeEntries tr = xs := by simp [treeEntries, hl, filterMap_id_map_some]
+      have hhas : ∀ q, treeHas fs.pd (scan cs).proot false q = (decide (q ∈ xs) && tr.blobs.contains q) := by
+        intro q
+        simp only [treeHas, hfind, Bool.false_eq_true, if_false, hl]
+        congr 1
+        rw [Bool.eq_iff_iff, leafFind_single xs hsrt pid q]
+        simp
+      simp only [content, h.mroot, hr, if_false, h.mptop, h.store.ptop, hfind, hent, h.mruns, List.mem_append, List.mem_filter, hhas]
+      constructor
+      · rintro (h' | ⟨h1, _⟩)
+        · exact h.store.runProps q h'
+        · exact hall q h1
+      · intro hq
+        rcases hc1 q hq with h' | h'
+        · exact Or.inl h'
+        · right
+          obtain ⟨h1, h2⟩ := hcov q h'
+          exact ⟨h1, by simp [h1, h2]⟩
 
 /-- **C01 + C02 over all histories of this shape**: whatever the incarnations did and wherever
     they died, the next open succeeds and shows the content of an admissible transaction list:
